@@ -210,7 +210,17 @@ def main(argv=None):
     if hasattr(reg, 'EXTRA_CHECKS') and pid in reg.EXTRA_CHECKS:
         for fn in reg.EXTRA_CHECKS[pid]:
             r = fn(args.tier, seed)
-            extra.update(r.get('coverage', {}))
+            cov = dict(r.get('coverage', {}))
+            if 'bounded' in cov and 'bounded' in extra and 'operations' in extra['bounded'] and 'operations' in cov['bounded']:
+                # several bounded stand-ins for one property: report them together
+                a, b = extra['bounded'], cov.pop('bounded')
+                extra['bounded'] = {'label': a['label'], 'space': '; '.join(x for x in (a.get('space'), b.get('space')) if x),
+                                    'cases': a.get('cases', 0) + b.get('cases', 0),
+                                    'distinct_cases': a.get('distinct_cases', 0) + b.get('distinct_cases', 0),
+                                    'operations': list(a.get('operations', [])) + list(b.get('operations', [])),
+                                    'failures': a.get('failures', 0) + b.get('failures', 0),
+                                    'samples': list(a.get('samples', [])) + list(b.get('samples', []))}
+            extra.update(cov)
             extra_viol.extend(r.get('violations', []))
             extra_err.extend(r.get('errors', []))
     selftest = []
